@@ -106,6 +106,10 @@ func rootsOf(v ssa.Value, seen map[ssa.Value]bool, field string) []root {
 	return []root{{kind: rootOther}}
 }
 
+func isSyncPkg(path string) bool {
+	return path == "sync" || path == "runtime" || strings.HasPrefix(path, "internal/") || strings.HasPrefix(path, "runtime/")
+}
+
 func isBigInt(t types.Type) bool {
 	if p, ok := t.(*types.Pointer); ok {
 		if n, ok := p.Elem().(*types.Named); ok {
@@ -241,6 +245,15 @@ func genAccess(pkgs []*packages.Package, leanDir, outDir string) {
 				}
 				return out
 			}
+			// sync/atomic: the first argument is the location; Load* reads it, everything else writes it.
+			// These accesses are not "under the mutex": a location switched to atomics leaves the
+			// proven disciplines and is reported (atomicity alone does not give distinct request ids).
+			if sc := c.StaticCallee(); sc != nil && sc.Pkg != nil && sc.Pkg.Pkg.Path() == "sync/atomic" && len(args) > 0 {
+				if !strings.HasPrefix(sc.Name(), "Load") {
+					out = append(out, wop{args[0], false})
+				}
+				return out
+			}
 			if b, ok := c.Value.(*ssa.Builtin); ok {
 				if b.Name() == "copy" && len(c.Args) > 0 {
 					out = append(out, wop{c.Args[0], false})
@@ -248,6 +261,9 @@ func genAccess(pkgs []*packages.Package, leanDir, outDir string) {
 				return out
 			}
 			for _, callee := range callees(c) {
+				if callee.Pkg != nil && isSyncPkg(callee.Pkg.Pkg.Path()) {
+					continue // synchronisation primitives: their internal atomics are not data accesses
+				}
 				for i := range args {
 					if lvl := writes[callee][i]; lvl > 0 {
 						out = append(out, wop{args[i], lvl == 1})
@@ -363,19 +379,45 @@ func genAccess(pkgs []*packages.Package, leanDir, outDir string) {
 	}
 	sort.Strings(globals)
 
+	// locations get numeric ids (1-based, in sorted order) so that the kernel evaluates the
+	// discipline on numbers; the names are kept alongside for reports
+	locID := map[string]int{}
+	var locNames []string
+	for _, r := range rows {
+		if _, ok := locID[r.loc]; !ok {
+			locNames = append(locNames, r.loc)
+		}
+		locID[r.loc] = 0
+	}
+	sort.Strings(locNames)
+	for i, n := range locNames {
+		locID[n] = i + 1
+	}
 	var b strings.Builder
 	b.WriteString("-- GENERATED by /verif/extract (access.go) from the repository's current source. Do not edit.\n")
 	b.WriteString("import BtcVerif.Model.HB\n\nnamespace BtcVerif.Gen\nopen BtcVerif.Model.HB\n\n")
-	b.WriteString("/-- accesses to package-level variables (and to fields of rpc.Connection) found by the SSA summary -/\n")
+	b.WriteString("/-- accesses to package-level variables (and to fields of rpc.Connection) found by the SSA summary:\n    ⟨location id, isWrite, lazy, inInit, guarded⟩ -/\n")
 	b.WriteString("def accessTable : List AccessRow := [\n")
 	for i, r := range rows {
 		sep := ","
 		if i == len(rows)-1 {
 			sep = ""
 		}
-		fmt.Fprintf(&b, "  ⟨%s, %s, %v, %v, %v, %v⟩%s\n", leanString(r.loc), leanString(r.fn), r.kind != "read", r.kind == "lazywrite", r.inInit, r.guard, sep)
+		fmt.Fprintf(&b, "  ⟨%d, %v, %v, %v, %v⟩%s -- %s in %s\n", locID[r.loc], r.kind != "read", r.kind == "lazywrite", r.inInit, r.guard, sep, r.loc, r.fn)
 	}
-	b.WriteString("]\n\n/-- every package-level variable of the repository's modules and the kklash dependencies -/\n")
+	b.WriteString("]\n\n/-- location names by id (index + 1) -/\ndef locNames : List String := [\n")
+	for i, n := range locNames {
+		sep := ","
+		if i == len(locNames)-1 {
+			sep = ""
+		}
+		fmt.Fprintf(&b, "  %s%s\n", leanString(n), sep)
+	}
+	b.WriteString("]\n\n")
+	fmt.Fprintf(&b, "/-- the documented global mutation the property excludes (0 = not present) -/\ndef excludedLocs : List Nat := [%d]\n\n", locID["bitcoinlib/constants.CurrentNetwork"])
+	fmt.Fprintf(&b, "/-- locations the table must cover: ecc.Curve, bip32.curve, rpc.Connection.requestID (0 = missing) -/\ndef coverLocs : List Nat := [%d, %d, %d]\n\n",
+		locID["bitcoinlib/ecc.Curve"], locID["bitcoinlib/bip32.curve"], locID["rpc.Connection.requestID"])
+	b.WriteString("/-- every package-level variable of the repository's modules and the kklash dependencies -/\n")
 	b.WriteString("def packageVars : List String := [\n")
 	for i, g := range globals {
 		sep := ","
